@@ -587,11 +587,12 @@ def run(chk):
             "selector and recovery are validated per step, not modelled (as in C01)",
         ],
     })
-    chk.assumptions = ["single-stepped execution: no concurrent writer/flush/compaction while a cursor is alive, no immutable memtable in the snapshot (concurrency is C06/C07/C20)",
-                       "SstCursor enumerates the file's entries in (key asc, timestamp desc) order (C10); the memtable iterator likewise (C17)",
-                       "the cursor combinators behave as their Cursor-area models (C11)",
-                       "batches hold distinct keys (F7 is a known finding of C01)",
-                       "after a reopen in which the recovery defect K2 (C01) is detected the store is outside the theorem's invariant: scans from that event on are attributed to K2"]
+    chk.assumptions = ["single-stepped execution: one client thread; the only concurrency exercised is the memtable thread's flush while a cursor is created / alive (flushscan) and writes by the same thread between cursor calls (scanw); concurrent writers/compactions are C06/C07/C20",
+                       "SstCursor enumerates the file's entries in (key asc, timestamp desc) order (C10); the skiplist holds the memtable's entries in that order and its find_* functions return what their names say (C17)",
+                       "the cursor combinators behave as their Cursor-area models (C11, whose theorems are imported and re-checked in the cone)",
+                       "batches hold distinct keys (the store dedupes a batch naming a key twice; fixed finding e9a5d1d)",
+                       "the snapshot taken between the ingest of a flushed sst and the clearing of the immutable memtable holds the flushed entries twice: outside the theorems (C11 needs distinct (key, timestamp) pairs), covered by the correspondence run only (flushscan imm=2)",
+                       "after a reopen in which the recovery defect K2 is detected the store is outside the theorem's invariant: scans from that event on are attributed to K2"]
 
 
 def replay(path):
